@@ -5,6 +5,27 @@ import (
 )
 
 var registry = map[string]*Property{
+	"C09": {
+		Title:      "ord scratch",
+		Decided:    "ORD",
+		NotDecided: "x",
+		Technique:  "CFG must/may dataflow",
+		DesignRef:  "DESIGN.md §3.5",
+		Rules: []Rule{
+			{"ORD-VALUE", rules.OrdValue},
+			{"ORD-LSTFIRST", rules.OrdLstFirst},
+			{"ORD-REARM", rules.OrdRearm},
+			{"ORD-POPGUARD", rules.OrdPopGuard},
+			{"ORD-BVMRESET", rules.OrdBVMReset},
+			{"ORD-LSTHIDE", rules.OrdLstHide},
+			{"ORD-EOFDEPTH", rules.OrdEOFDepth},
+			{"ORD-DANGLE", rules.OrdDangle},
+			{"ORD-SORTMAP", rules.OrdSortMap},
+			{"ORD-FIRSTWINS", rules.OrdFirstWins},
+			{"ORD-SIDBOUND", rules.OrdSidBound},
+			{"ORD-NOINPUT", rules.OrdNoInput},
+		},
+	},
 	"C03": {
 		Title:      "binary reader",
 		Decided:    "TAB",
